@@ -204,6 +204,15 @@ def make_state(P, reg, case, t):
         u[:] = arr(u) + amp * pert
     if reg.get('clip'):
         u[:] = np.clip(arr(u).real, *reg['clip'])
+    # piecewise-defined right-hand sides (battery family): a state exactly on a switching surface v_k = V_ref is not an admissible test
+    # point, the right-hand side is discontinuous there (and the classes decide the side from different quantities): move it off the surface
+    vref = getattr(P, 'V_ref', None)
+    if vref is not None:
+        a = arr(u)
+        for k in range(1, a.size):
+            if abs(a.flat[k] - np.ravel(vref)[min(k - 1, np.size(vref) - 1)]) < 1e-3:
+                a.flat[k] += 5e-3
+        u[:] = a
     return u
 
 
